@@ -47,7 +47,15 @@ func c13Scope(spec []string) (ctx context.Context, ok bool) {
 		if !ok {
 			return nil, false
 		}
-		return ociauth.ContextWithScope(ctx, ociauth.NewScope(rs...)), true
+		sc := ociauth.NewScope(rs...)
+		// every other case carries the same scope as ParseScope makes it (it remembers the text it was parsed from): what a
+		// wrapper hands on must not only BE the rewritten scope but also print as it (String() is what a token request sends)
+		if len(strings.Join(spec, " "))%2 == 1 {
+			if p := ociauth.ParseScope(sc.String()); p.Equal(sc) {
+				sc = p
+			}
+		}
+		return ociauth.ContextWithScope(ctx, sc), true
 	}
 	return nil, false
 }
@@ -64,6 +72,11 @@ func showScopeOf(ctx context.Context) string {
 	})
 	if len(items) == 0 {
 		return "-"
+	}
+	var rs []rsT
+	s.Iter()(func(r rsT) bool { rs = append(rs, r); return true })
+	if txt := s.String(); txt != ociauth.NewScope(rs...).String() { // every scope in this engine is built from, or parsed from, the canonical text
+		return "[" + strings.Join(items, " ") + "]!prints-as=" + tok(txt) // the scope and its text have come apart
 	}
 	return "[" + strings.Join(items, " ") + "]"
 }
